@@ -97,7 +97,11 @@ pub fn judge_position(tm: &Timing, t: f32, got: Got) -> Result<(bool, bool), Str
         return Ok((true, nontrivial));
     }
     // tolerance domain
-    let ds = ulp32(s as f32) as f64 + if span.is_finite() { ulp32(span as f32) as f64 } else { 0.0 };
+    // an exact subtraction leaves only the rounding of the final division (and, next to the end of
+    // the active span, of the product cycle x (repeats+1))
+    let exact_sub = sum_exact(t as f64, -(tm.delay as f64)) && exact32(s);
+    let near_end = span.is_finite() && (s - span).abs() <= 4.0 * ulp32(span as f32) as f64;
+    let ds = if exact_sub && !near_end { 0.0 } else { ulp32(s as f32) as f64 + if span.is_finite() { ulp32(span as f32) as f64 } else { 0.0 } };
     let lo = tm.phase_s(s - ds);
     let hi = tm.phase_s(s + ds);
     let dp = ds / c * if tm.reverse { 2.0 } else { 1.0 } + 4.0 * 2f64.powi(-24);
